@@ -8,11 +8,9 @@ import Asn1cModel.Proofs.FixerMisc
   Spec = `Spec.Fix` (X.680 distinct-tag rules over `HasOuter`, ENUMERATED numbering, …).
 
   Shape of the result: on an explicit decidable domain the fixer's verdict is exactly
-  `¬ Spec.consistent`.  The domain excludes two regions where asn1c violates the property (each
-  has a counter-example theorem below and a witness replayed on the real asn1c by the check)
+  `¬ Spec.consistent`.  The domain excludes one region where asn1c violates the property (with
+  counter-example theorems below and witnesses replayed on the real asn1c by the check)
   and the region where the model runs out of fuel:
-    * `cut`     — `_asn1f_compare_tags` answered through its TM_RECURSION guard
-                   (`typeref_then_choice_ref_missed_cex`: a clash is missed)
     * numbering — the code numbers un-numbered enumeration items max+1 instead of X.680 §20.3
                    (`enum_numbering_rejects_valid_cex`, `enum_numbering_accepts_duplicate_cex`)
     * fuel      — a type that contains itself without an intervening tag: the C code's
@@ -22,6 +20,10 @@ import Asn1cModel.Proofs.FixerMisc
                    check demands a rejection by exit status on every such module).  The guard
                    stays in `Dom_C11` because "out of fuel implies inconsistent" is not proved in
                    general.
+  A former region is gone with the repair of the code (finding F61): `_asn1f_compare_tags` no
+  longer marks the compared members with TM_RECURSION (the marks made `asn1f_fetch_tags_impl` fail
+  on the marked reference and a clash was missed): `compare_tags_iff` holds for every answer; the
+  former witness is `typeref_then_choice_ref_diagnosed`.
 -/
 namespace Asn1c.Props.C11
 open Asn1c.Fix Asn1c.Impl.Fixer Asn1c.Spec.Fix Asn1c.Proofs.Fixer
@@ -37,10 +39,10 @@ open Asn1c.Fix Asn1c.Impl.Fixer Asn1c.Spec.Fix Asn1c.Proofs.Fixer
 def WfModule (M : Module) : Prop := otherFatal M = some false
 
 /-- The model's reference following never ran out of fuel (true for every module whose
-    look-through graph is acyclic), no tag comparison was answered by the TM_RECURSION guard,
-    and the code's numbering of every ENUMERATED is the X.680 numbering. -/
+    look-through graph is acyclic) and the code's numbering of every ENUMERATED is the X.680
+    numbering. -/
 def Dom_C11 (M : Module) : Prop :=
-  (fixerRun M).map CR.cut = some false ∧ ∀ t ∈ M.nodes, EnumAgrees t
+  (fixerRun M).isSome = true ∧ ∀ t ∈ M.nodes, EnumAgrees t
 
 instance (M : Module) : Decidable (WfModule M) := by unfold WfModule; infer_instance
 instance (M : Module) : Decidable (Dom_C11 M) := by unfold Dom_C11; infer_instance
@@ -53,14 +55,14 @@ theorem fetch_outmost_tag_spec (M : Module) (f : Nat) (x : Ex) (g : OTag)
     (h : fetchOutmost M f x = .tag g) : ∀ g', outerTags M x g' ↔ g' = g :=
   fetchOutmost_tag M f x g h
 
-/-- **_asn1f_compare_tags**: whenever it answers without running out of fuel and without its
-    TM_RECURSION guard, it reports "same tag" iff the sets of possible outermost tags of the
-    two members intersect — looking through type references and nested untagged CHOICEs, with
-    the members of those CHOICEs tagged as the tagging environment (incl. AUTOMATIC) says. -/
-theorem compare_tags_iff (M : Module) (f : Nat) (a b : Ex) (r : CR)
-    (h : compareTags M f a false b false = some r) (hcut : r.cut = false) :
-    r.clash = true ↔ ∃ g, outerTags M a g ∧ outerTags M b g :=
-  compareTags_sound M f a false b false r h hcut
+/-- **_asn1f_compare_tags**: whenever it answers (without running out of fuel), it reports
+    "same tag" iff the sets of possible outermost tags of the two members intersect — looking
+    through type references and nested untagged CHOICEs, with the members of those CHOICEs
+    tagged as the tagging environment (incl. AUTOMATIC) says. -/
+theorem compare_tags_iff (M : Module) (f : Nat) (a b : Ex) (r : Bool)
+    (h : compareTags M f a b = some r) :
+    r = true ↔ ∃ g, outerTags M a g ∧ outerTags M b g :=
+  compareTags_sound M f a b r h
 
 /-- **asn1f_fix_constr_tag + asn1f_fix_constr_autotag** give every member the (class, number)
     the X.680 tagging environment gives it: the fixed member list and `Spec.comps` agree
@@ -129,13 +131,13 @@ theorem autotag_numbering (M : Module) (root adds : List Comp) (hasExt : Bool)
     distinctness rule of that kind is violated (SEQUENCE: runs of OPTIONAL/DEFAULT components
     plus the following one; SET/CHOICE: all pairs). -/
 theorem tags_distinct_iff (M : Module) (k : CKind) (root adds : List Comp) (hasExt : Bool)
-    (ss : List Slot) (c : CR)
+    (ss : List Slot) (c : Bool)
     (hs : Asn1c.Impl.Fixer.comps M root hasExt adds = some ss)
-    (hc : checkDistinct M (k == .sequence) ss = some c) (hcut : c.cut = false) :
-    c.clash = true ↔ ¬ tagsDistinct M k (Asn1c.Spec.Fix.comps M root hasExt adds) := by
-  have h := checkDistinct_spec M _ ss c hc hcut
+    (hc : checkDistinct M (k == .sequence) ss = some c) :
+    c = true ↔ ¬ tagsDistinct M k (Asn1c.Spec.Fix.comps M root hasExt adds) := by
+  have h := checkDistinct_spec M _ ss c hc
   rw [allOk_rel (comps_rel hs), allOk_iff_tagsDistinct] at h
-  rw [← h]; cases c.clash <;> simp
+  rw [← h]; cases c <;> simp
 
 /-! ### identifiers, enumerations, references -/
 
@@ -198,14 +200,12 @@ theorem verdict_iff (M : Module) (hwf : WfModule M) (hdom : Dom_C11 M) :
   cases hcat : catalogueFatal M with
   | none => unfold fixerRun at hrun; rw [hcat] at hrun; simp at hrun
   | some a =>
-    have hrun' : fixerRun M = some ⟨a.clash, a.cut⟩ := by
+    have hrun' : fixerRun M = some a := by
       unfold fixerRun; rw [hcat, hwf]; simp
-    rw [hrun'] at hrun
-    simp at hrun
-    have h := catalogue_iff hcat hrun henum
+    have h := catalogue_iff hcat henum
     unfold fixerVerdict
     rw [hrun', ← h]
-    cases hcl : a.clash <;> simp
+    cases a <;> simp
 
 /-- accept side, spelled out -/
 theorem accepts_consistent (M : Module) (hwf : WfModule M) (hdom : Dom_C11 M) (hc : consistent M) :
@@ -233,7 +233,20 @@ def exampleModule : Module := ⟨.automatic, [
 example : WfModule exampleModule ∧ Dom_C11 exampleModule ∧ fixerVerdict exampleModule = .accept := by
   decide +kernel
 
-/-! ### counter-examples for the excluded regions (each replayed on the real asn1c) -/
+/-- a consistent module of the shape that used to be cut by the TM_RECURSION marks (an untagged type
+    reference followed by a reference to an untagged CHOICE, T0 ::= BOOLEAN sharing no tag with it)
+    lies in the domain and is accepted -/
+def exampleModule2 : Module := ⟨.explicit, [
+  ⟨"T0", P .boolean⟩,
+  ⟨"T1", .constr none .choice
+      [.mk "x" (.ref none "T0") .mandatory, .mk "y" (.ref none "T2") .mandatory] false []⟩,
+  ⟨"T2", .constr none .choice
+      [.mk "p" (P .integer) .mandatory, .mk "q" (P .null) .mandatory] false []⟩]⟩
+
+example : WfModule exampleModule2 ∧ Dom_C11 exampleModule2 ∧ fixerVerdict exampleModule2 = .accept := by
+  decide +kernel
+
+/-! ### a former witness (F61, repaired), counter-examples for the excluded region, a quirk (each replayed on the real asn1c) -/
 
 /-- T1 ::= CHOICE { x T0, y T2 },  T0 ::= INTEGER,  T2 ::= CHOICE { p INTEGER, q NULL } -/
 def markModule : Module := ⟨.explicit, [
@@ -243,13 +256,14 @@ def markModule : Module := ⟨.explicit, [
   ⟨"T2", .constr none .choice
       [.mk "p" (P .integer) .mandatory, .mk "q" (P .null) .mandatory] false []⟩]⟩
 
-/-- **Finding (TM_RECURSION).**  Alternatives x and y of T1 can both carry UNIVERSAL 2, yet the
-    fixer accepts: `_asn1f_compare_tags(x, y)` marks x before descending into T2, and
-    `asn1f_fetch_tags_impl` refuses to follow the marked reference x. -/
-theorem typeref_then_choice_ref_missed_cex :
-    WfModule markModule ∧ fixerVerdict markModule = .accept ∧ ¬ consistent markModule ∧
-    fixerRun markModule = some ⟨false, true⟩ := by
-  refine ⟨by decide +kernel, by decide +kernel, ?_, by decide +kernel⟩
+/-- **Former finding F61 (TM_RECURSION), repaired.**  Alternatives x and y of T1 can both carry
+    UNIVERSAL 2.  `_asn1f_compare_tags(x, y)` used to mark x before descending into T2, and
+    `asn1f_fetch_tags_impl` refused to follow the marked reference x: accepted.  Without the marks
+    the clash p / x is found: the module is in the domain and rejected. -/
+theorem typeref_then_choice_ref_diagnosed :
+    WfModule markModule ∧ Dom_C11 markModule ∧ fixerVerdict markModule = .reject ∧
+    ¬ consistent markModule := by
+  refine ⟨by decide +kernel, by decide +kernel, by decide +kernel, ?_⟩
   intro hc
   have hnode := hc (.constr none .choice
       [.mk "x" (.ref none "T0") .mandatory, .mk "y" (.ref none "T2") .mandatory] false [])
